@@ -57,13 +57,30 @@ type mSub struct {
 	Name string `json:"name"`
 	Rid  string `json:"rid"`
 }
+
+// msgMap: TLC prints a function with an empty domain (a family without messages) as [].
+type msgMap map[string]mMsg
+
+func (m *msgMap) UnmarshalJSON(b []byte) error {
+	if t := strings.TrimSpace(string(b)); strings.HasPrefix(t, "[") {
+		*m = msgMap{}
+		return nil
+	}
+	var x map[string]mMsg
+	if err := json.Unmarshal(b, &x); err != nil {
+		return err
+	}
+	*m = x
+	return nil
+}
+
 type mDB struct {
-	MB       []mBox          `json:"mb"`
-	NextBox  int             `json:"nextBox"`
-	Msgs     map[string]mMsg `json:"msgs"`
-	M2B      []mPair         `json:"m2b"`
-	Dsubs    []mSub          `json:"dsubs"`
-	Settings string          `json:"settings"`
+	MB       []mBox  `json:"mb"`
+	NextBox  int     `json:"nextBox"`
+	Msgs     msgMap  `json:"msgs"`
+	M2B      []mPair `json:"m2b"`
+	Dsubs    []mSub  `json:"dsubs"`
+	Settings string  `json:"settings"`
 }
 
 func (d *mDB) normalize() {
@@ -605,8 +622,8 @@ type rawMsg struct {
 
 // readRaw reads every table with plain SQL and projects it onto the model's relations.
 // exp (the model state) is only used to know which remote id the copies kept in the mailbox rows should show.
-func (w *world) readRaw(exp *mDB) (*mDB, string, error) {
-	got := &mDB{MB: make([]mBox, w.maxBox), Msgs: map[string]mMsg{}, NextBox: 1, Settings: "null"}
+func (w *world) readRaw(exp *mDB) (got *mDB, softRel, soft string, err error) {
+	got = &mDB{MB: make([]mBox, w.maxBox), Msgs: msgMap{}, NextBox: 1, Settings: "null"}
 	for i := range got.MB {
 		got.MB[i].Next = 1
 		got.MB[i].Rows = []mRow{}
@@ -643,7 +660,7 @@ func (w *world) readRaw(exp *mDB) (*mDB, string, error) {
 		}
 		return nil
 	}); err != nil {
-		return nil, "", err
+		return nil, "", "", err
 	}
 	seq := map[string]int{}
 	if err := q("SELECT name, seq FROM sqlite_sequence", func(r *sql.Rows) error {
@@ -655,13 +672,12 @@ func (w *world) readRaw(exp *mDB) (*mDB, string, error) {
 		seq[n] = s
 		return nil
 	}); err != nil {
-		return nil, "", err
+		return nil, "", "", err
 	}
 	got.NextBox = seq["mailboxes_v2"] + 1
-	soft := ""
-	bad := func(format string, a ...any) {
+	bad := func(rel, format string, a ...any) {
 		if soft == "" {
-			soft = fmt.Sprintf(format, a...)
+			soft, softRel = fmt.Sprintf(format, a...), rel
 		}
 	}
 	if err := q("SELECT id, remote_id, name, uid_validity, subscribed FROM mailboxes_v2", func(r *sql.Rows) error {
@@ -672,18 +688,18 @@ func (w *world) readRaw(exp *mDB) (*mDB, string, error) {
 			return err
 		}
 		if id < 1 || id > w.maxBox {
-			bad("mailbox id %d outside 1..%d", id, w.maxBox)
+			bad("mailboxes.existence", "mailbox id %d outside 1..%d", id, w.maxBox)
 			return nil
 		}
 		b := &got.MB[id-1]
 		b.Ex, b.Rid, b.Name, b.UV, b.Sub = true, absBoxRid(rid), absBoxName(name), uv, sub
 		return nil
 	}); err != nil {
-		return nil, "", err
+		return nil, "", "", err
 	}
 	for id := range tables {
 		if id < 1 || id > w.maxBox || !got.MB[id-1].Ex {
-			bad("table mailbox_message_%d exists but mailbox %d does not", id, id)
+			bad("mailbox_rows.table", "table mailbox_message_%d exists but mailbox %d does not", id, id)
 		}
 	}
 	flagTable := func(table string, dst func(b *mBox) *[]string) error {
@@ -694,7 +710,7 @@ func (w *world) readRaw(exp *mDB) (*mDB, string, error) {
 				return err
 			}
 			if id < 1 || id > w.maxBox || !got.MB[id-1].Ex {
-				bad("%s has a row for mailbox %d which does not exist", table, id)
+				bad("mailbox_flags", "%s has a row for mailbox %d which does not exist", table, id)
 				return nil
 			}
 			p := dst(&got.MB[id-1])
@@ -703,13 +719,13 @@ func (w *world) readRaw(exp *mDB) (*mDB, string, error) {
 		})
 	}
 	if err := flagTable("mailbox_flags_v2", func(b *mBox) *[]string { return &b.Fl }); err != nil {
-		return nil, "", err
+		return nil, "", "", err
 	}
 	if err := flagTable("mailbox_perm_flags_v2", func(b *mBox) *[]string { return &b.Pf }); err != nil {
-		return nil, "", err
+		return nil, "", "", err
 	}
 	if err := flagTable("mailbox_attrs_v2", func(b *mBox) *[]string { return &b.At }); err != nil {
-		return nil, "", err
+		return nil, "", "", err
 	}
 	// messages
 	type macc struct {
@@ -735,26 +751,26 @@ func (w *world) readRaw(exp *mDB) (*mDB, string, error) {
 		}
 		ref, ok := w.ref[id]
 		if !ok {
-			bad("messages_v2 holds an unknown message id %s", id)
+			bad("messages.existence", "messages_v2 holds an unknown message id %s", id)
 			return nil
 		}
 		a := accs[ref.m]
 		if !date.Equal(w.msgDate(ref.m)) || size != msgSize(ref.m, ref.i) || body != msgBody(ref.m, ref.i) || st != msgStruct(ref.m) || env != msgEnv(ref.m) {
-			bad("message %s clone %d: stored date/size/body/structure/envelope differ from what was created", ref.m, ref.i)
+			bad("messages.opaque", "message %s clone %d: stored date/size/body/structure/envelope differ from what was created", ref.m, ref.i)
 		}
 		ar := absMsgRid(rid, ref.i)
 		k := fmt.Sprint(ar, del)
 		if a.n == 0 {
 			a.key, a.rid, a.del = k, ar, del
 		} else if k != a.key {
-			bad("message %s: clones disagree in messages_v2: clone %d has (remote id %s, deleted %v), another clone (%s, %v)", ref.m, ref.i, ar, del, a.rid, a.del)
+			bad("messages.remote_id", "message %s: clones disagree in messages_v2: clone %d has (remote id %s, deleted %v), another clone (%s, %v)", ref.m, ref.i, ar, del, a.rid, a.del)
 		}
 		a.n++
 		a.present[ref.i] = true
 		a.rids[ref.i] = rid
 		return nil
 	}); err != nil {
-		return nil, "", err
+		return nil, "", "", err
 	}
 	if err := q("SELECT message_id, value FROM message_flags_v2", func(r *sql.Rows) error {
 		var id, v string
@@ -763,24 +779,24 @@ func (w *world) readRaw(exp *mDB) (*mDB, string, error) {
 		}
 		ref, ok := w.ref[id]
 		if !ok {
-			bad("message_flags_v2 holds an unknown message id %s", id)
+			bad("message_flags", "message_flags_v2 holds an unknown message id %s", id)
 			return nil
 		}
 		accs[ref.m].flags[ref.i] = append(accs[ref.m].flags[ref.i], v)
 		return nil
 	}); err != nil {
-		return nil, "", err
+		return nil, "", "", err
 	}
 	for _, m := range w.order {
 		a := accs[m]
 		if a.n == 0 {
 			if len(a.flags) > 0 {
-				bad("message %s: flags stored for a message that does not exist", m)
+				bad("message_flags", "message %s: flags stored for a message that does not exist", m)
 			}
 			continue
 		}
 		if a.n != w.g[m] {
-			bad("message %s: %d of its %d clones are in messages_v2", m, a.n, w.g[m])
+			bad("messages.existence", "message %s: %d of its %d clones are in messages_v2", m, a.n, w.g[m])
 		}
 		var fl []string
 		for i := 0; i < w.g[m]; i++ {
@@ -791,7 +807,7 @@ func (w *world) readRaw(exp *mDB) (*mDB, string, error) {
 			if fl == nil {
 				fl = f
 			} else if !strsEq(fl, f) {
-				bad("message %s: clones disagree in message_flags_v2: clone %d has %v, an earlier clone %v", m, i, f, fl)
+				bad("message_flags", "message %s: clones disagree in message_flags_v2: clone %d has %v, an earlier clone %v", m, i, f, fl)
 				break
 			}
 		}
@@ -810,17 +826,17 @@ func (w *world) readRaw(exp *mDB) (*mDB, string, error) {
 		}
 		ref, ok := w.ref[id]
 		if !ok {
-			bad("message_to_mailbox holds an unknown message id %s", id)
+			bad("message_to_mailbox", "message_to_mailbox holds an unknown message id %s", id)
 			return nil
 		}
 		pairN[mPair{ref.m, b}]++
 		return nil
 	}); err != nil {
-		return nil, "", err
+		return nil, "", "", err
 	}
 	for p, n := range pairN {
 		if n != w.g[p.M] {
-			bad("message_to_mailbox: %d of the %d clones of %s are linked to mailbox %d", n, w.g[p.M], p.M, p.B)
+			bad("message_to_mailbox", "message_to_mailbox: %d of the %d clones of %s are linked to mailbox %d", n, w.g[p.M], p.M, p.B)
 		}
 		got.M2B = append(got.M2B, p)
 	}
@@ -831,7 +847,7 @@ func (w *world) readRaw(exp *mDB) (*mDB, string, error) {
 			continue
 		}
 		if !tables[id] {
-			bad("mailbox %d exists but table mailbox_message_%d does not", id, id)
+			bad("mailbox_rows.table", "mailbox %d exists but table mailbox_message_%d does not", id, id)
 			continue
 		}
 		table := "mailbox_message_" + strconv.Itoa(id)
@@ -839,7 +855,7 @@ func (w *world) readRaw(exp *mDB) (*mDB, string, error) {
 		if n, ok := w.absNext(id, cnext); ok {
 			b.Next = n
 		} else {
-			bad("mailbox %d: autoincrement counter %d is not at the boundary of a clone group (groups: %v)", id, cnext-1, w.owner[id])
+			bad("mailbox_rows.autoincrement", "mailbox %d: autoincrement counter %d is not at the boundary of a clone group (groups: %v)", id, cnext-1, w.owner[id])
 			b.Next = -cnext
 		}
 		var cur *mRow
@@ -847,7 +863,7 @@ func (w *world) readRaw(exp *mDB) (*mDB, string, error) {
 		flush := func() {
 			if cur != nil {
 				if curN != w.g[cur.M] {
-					bad("mailbox %d: %d of the %d clones of %s are in the mailbox table (uid %d)", id, curN, w.g[cur.M], cur.M, cur.UID)
+					bad("mailbox_rows", "mailbox %d: %d of the %d clones of %s are in the mailbox table (uid %d)", id, curN, w.g[cur.M], cur.M, cur.UID)
 				}
 				b.Rows = append(b.Rows, *cur)
 			}
@@ -862,12 +878,12 @@ func (w *world) readRaw(exp *mDB) (*mDB, string, error) {
 			}
 			ref, ok := w.ref[mid]
 			if !ok {
-				bad("%s holds an unknown message id %s", table, mid)
+				bad("mailbox_rows", "%s holds an unknown message id %s", table, mid)
 				return nil
 			}
 			u, i, own, ok := w.absUID(id, uid)
 			if !ok || own != ref.m || i != ref.i {
-				bad("mailbox %d: uid %d holds clone %d of %s; that uid belongs to clone %d of %q (abstract uid %d)", id, uid, ref.i, ref.m, i, own, u)
+				bad("mailbox_rows.uid", "mailbox %d: uid %d holds clone %d of %s; that uid belongs to clone %d of %q (abstract uid %d)", id, uid, ref.i, ref.m, i, own, u)
 				return nil
 			}
 			if exp != nil {
@@ -879,13 +895,13 @@ func (w *world) readRaw(exp *mDB) (*mDB, string, error) {
 						}
 					}
 					if rid != want {
-						bad("remote-id-copy: mailbox %d uid %d: the row shows remote id %q, the message's remote id is %q", id, uid, rid, want)
+						bad("mailbox_rows.remote_id_copy", "mailbox %d uid %d: the row shows remote id %q, the message's remote id is %q", id, uid, rid, want)
 					}
 				}
 			}
 			if cur != nil && cur.UID == u {
 				if cur.Del != del || cur.Rec != rec {
-					bad("mailbox %d: clones of %s disagree (deleted/recent) at uid %d", id, ref.m, uid)
+					bad("mailbox_rows.deleted", "mailbox %d: clones of %s disagree (deleted/recent) at uid %d", id, ref.m, uid)
 				}
 				curN++
 				return nil
@@ -894,7 +910,7 @@ func (w *world) readRaw(exp *mDB) (*mDB, string, error) {
 			cur, curN = &mRow{UID: u, M: ref.m, Del: del, Rec: rec}, 1
 			return nil
 		}); err != nil {
-			return nil, "", err
+			return nil, "", "", err
 		}
 		flush()
 	}
@@ -906,7 +922,7 @@ func (w *world) readRaw(exp *mDB) (*mDB, string, error) {
 		got.Dsubs = append(got.Dsubs, mSub{absBoxName(n), absBoxRid(rid)})
 		return nil
 	}); err != nil {
-		return nil, "", err
+		return nil, "", "", err
 	}
 	if err := q("SELECT value FROM connector_settings WHERE id = 0", func(r *sql.Rows) error {
 		var v sql.NullString
@@ -918,10 +934,10 @@ func (w *world) readRaw(exp *mDB) (*mDB, string, error) {
 		}
 		return nil
 	}); err != nil {
-		return nil, "", err
+		return nil, "", "", err
 	}
 	got.normalize()
-	return got, soft, nil
+	return got, softRel, soft, nil
 }
 
 // ---- canonical JSON comparison of replies ----
